@@ -4,6 +4,7 @@ import json
 import os
 from . import core
 
+last_mode_plans = []
 MC_ACTIONS = ("CSendConnReq", "SConfirm", "CTlsHello", "TlsDone", "CNla", "SNla", "CSendConnectInitial", "SConnectResponse", "CSendErect",
               "CSendAttach", "SAttachConfirm", "CSendJoin", "SJoinConfirm", "CSendClientInfo", "SLicence", "CConnected", "CConnectedPlain", "CGiveUp", "Session")
 
@@ -19,8 +20,8 @@ def gen_plans(wd, nconn, flagset, seed):
     src = open(os.path.join(core.SPEC, "Gen_Rdp.cfg")).read()
     src = src.replace("NConn = 300", "NConn = %d" % nconn).replace("FlagSet = {0, 1, 255}", "FlagSet = {%s}" % ", ".join(str(x) for x in flagset))
     open(cfg, "w").write(src)
-    nego, conn = os.path.join(wd, "negoplans.ndjson"), os.path.join(wd, "connplans.ndjson")
-    r = core.tlc("Gen_Rdp", cfg=cfg, wd=wd, env={"NEGOPLANS": nego, "CONNPLANS": conn}, seed=seed, timeout=900)
+    nego, conn, mode = os.path.join(wd, "negoplans.ndjson"), os.path.join(wd, "connplans.ndjson"), os.path.join(wd, "modeplans.ndjson")
+    r = core.tlc("Gen_Rdp", cfg=cfg, wd=wd, env={"NEGOPLANS": nego, "CONNPLANS": conn, "MODEPLANS": mode}, seed=seed, timeout=900)
     if r.rc != 0:
         raise core.ToolError("Gen_Rdp failed:\n" + core.tail(r.out))
     def load(p, tag):
@@ -30,6 +31,8 @@ def gen_plans(wd, nconn, flagset, seed):
             d["id"] = "%s%d" % (tag, i)
             out.append(d)
         return out
+    global last_mode_plans
+    last_mode_plans = load(mode, "m")
     return load(nego, "n"), load(conn, "c")
 
 
